@@ -194,9 +194,34 @@ pub fn run(opts: &Opts, pools: &Pools, rep: &mut Report) {
         }
         let hr = !rng.chance(1, 3);
         let nr = !rng.chance(1, 3);
-        // the way Atom::score switches the configuration on a shared matcher
-        veteran.config = case.cfg.real();
+        // blocks of 8 cases share one configuration that is assigned once (a caller that sets its
+        // configuration up front); in between the configuration is switched per call the way
+        // Atom::score does it on a shared matcher
+        let mut case = case;
+        if (idx / 8) % 2 == 0 {
+            let block_cfg = RCfg::from_index((mix(&[opts.seed, opts.shard, idx / 8]) % RCfg::COUNT as u64) as usize);
+            case.cfg = block_cfg;
+            let mut n = case.needle.chars.clone();
+            normalize_needle(&mut n, &block_cfg);
+            case.needle = Text::new(n);
+            if idx % 8 == 0 || idx == 0 {
+                veteran.config = block_cfg.real();
+            }
+            rep.count("c10.calls-under-a-configuration-set-once");
+        } else {
+            veteran.config = case.cfg.real();
+        }
         let got = all_calls(&mut veteran, &case, hr, nr);
+        if veteran.config != case.cfg.real() {
+            rep.violation(
+                "C10",
+                "matching-changed-the-configuration",
+                "config".into(),
+                jobj! {"case" => case.to_json_short(), "case_id" => format!("{}:{}:{}", opts.seed, opts.shard, idx),
+                       "expected" => format!("{:?}", case.cfg.real()), "found" => format!("{:?}", veteran.config)},
+            );
+            veteran.config = case.cfg.real();
+        }
         let mut fresh = Matcher::new(case.cfg.real());
         let expected = all_calls(&mut fresh, &case, hr, nr);
         rep.add("calls", 24);
@@ -236,7 +261,7 @@ pub fn run(opts: &Opts, pools: &Pools, rep: &mut Report) {
                         },
                     );
                 }
-                veteran = Matcher::default();
+                veteran = Matcher::new(case.cfg.real());
             }
         }
     }
